@@ -110,7 +110,7 @@ fn txout_ser(d: &OutD) -> [u8; 45] {
 // =====================================================================================================================
 // BIP-143 / Elements
 macro_rules! segwit_harness {
-    ($name:ident, $nin:expr, $nout:expr) => {
+    ($name:ident, $nin:expr, $nout:expr, $ty:expr) => {
         #[kani::proof]
         #[kani::stub(<ShaEngine as HashEngineTrait>::input, hm::input_fold)]
         #[kani::stub(ShaHash::from_engine, hm::from_engine_fold)]
@@ -130,7 +130,8 @@ macro_rules! segwit_harness {
             let tx = Transaction { version, lock_time: LockTime::ZERO, input, output };
             let idx: usize = kani::any();
             kani::assume(idx < NIN); // documented panic otherwise
-            let raw_type: u32 = kani::any();
+            let ty: Option<u32> = $ty;
+            let raw_type: u32 = match ty { Some(x) => x, None => kani::any() };
             let t = EcdsaSighashType::from_u32(raw_type);
             let sc: u8 = kani::any();
             let script_code = Script::from(vec![sc]);
@@ -193,20 +194,27 @@ macro_rules! segwit_harness {
             assert!(sink.len == m.n, "message length");
             assert!(sink.len == 4 + 96 + 36 + 2 + 9 + 4 + 32 + 4 + 4);
             assert!(sink.buf == m.b, "BIP-143/Elements message bytes");
-            kani::cover!(acp && base == 3);
-            kani::cover!(!acp && base == 2);
-            kani::cover!(!acp && base == 1 && raw_type > 0xff);
-            kani::cover!(base == 3 && idx >= NOUT);
+            kani::cover!(ty.is_some() || (acp && base == 3));
+            kani::cover!(ty.is_some() || (!acp && base == 2));
+            kani::cover!(ty.is_some() || (!acp && base == 1 && raw_type > 0xff));
+            kani::cover!(NIN <= NOUT || (base == 3 && idx >= NOUT) || ty.is_some());
             core::mem::forget(tx);
         }
     };
 }
 //@ harness: segwitv0_message_1in_1out class=B tier=thorough bound="1 input (no issuance, pegin flag symbolic), 1 explicit output with 1-byte script, 1-byte script code, explicit amount; every u32 hash type" props=C03 timeout=1500
 //@ clause: encode_segwitv0_signing_data_to writes exactly: version | hashPrevouts | hashSequence | hashIssuance | outpoint | scriptCode | amount | nSequence | hashOutputs | nLockTime | hash type, where hashPrevouts/hashIssuance are zero under ANYONECANPAY, hashSequence is zero under ANYONECANPAY/NONE/SINGLE, hashOutputs covers all outputs (ALL), the matching output (SINGLE) or is zero, and each sub-hash is the double hash of exactly the prescribed stream
-segwit_harness!(segwitv0_message_1in_1out, 1, 1);
+segwit_harness!(segwitv0_message_1in_1out, 1, 1, None);
 //@ harness: segwitv0_message_2in_1out class=B tier=thorough bound="2 inputs, 1 output, input index symbolic (index 1 has no output: SINGLE zero hash); otherwise as above" props=C03 timeout=1500
 //@ clause: same with two inputs: sub-hash streams range over both inputs in order, the per-input fields are those of the signed input, SINGLE at an index without output commits to the zero hash
-segwit_harness!(segwitv0_message_2in_1out, 2, 1);
+segwit_harness!(segwitv0_message_2in_1out, 2, 1, None);
+
+//@ harness: segwitv0_message_all_1in_1out class=B tier=thorough bound="1 input, 1 output, hash type ALL (0x01) only; otherwise as segwitv0_message_1in_1out" props=C03 timeout=1500
+//@ clause: the BIP-143/Elements message for SIGHASH_ALL: all three input sub-hashes and hashOutputs are the double hashes of the prescribed streams, direct fields at their positions
+segwit_harness!(segwitv0_message_all_1in_1out, 1, 1, Some(0x01));
+//@ harness: segwitv0_message_single_acp_1in_1out class=B tier=thorough bound="1 input, 1 output, hash type SINGLE|ANYONECANPAY (0x83) only" props=C03 timeout=1500
+//@ clause: the BIP-143/Elements message for SINGLE|ANYONECANPAY: the three input sub-hashes are zero, hashOutputs is the double hash of the matching output
+segwit_harness!(segwitv0_message_single_acp_1in_1out, 1, 1, Some(0x83));
 
 // =====================================================================================================================
 // legacy
